@@ -15,6 +15,13 @@
 //!   scale.chk.sector.points <sec> n              scale.chk.arc.points <sec> n
 //!   scale.chk.sector.styled <sec> bk bnx bny fill stroke width align n     (pixels().take(n))
 //!   scale.chk.arc.styled <sec> fill stroke width align n
+//!   scale.chk.circle.styled x y d <style> n      scale.chk.circle.draw x y d <style> n
+//!   scale.chk.ellipse.styled x y w h <style> n   scale.chk.ellipse.draw x y w h <style> n
+//!   scale.chk.rrect.styled x y w h <8 radii> <style> n      scale.chk.rrect.draw x y w h <8 radii> <style> n
+//!   scale.chk.poly.draw x0 y0 x1 y1 x2 y2 w n
+//!     `.styled` = `into_styled(style).pixels().take(n)` as `x,y,colour;...`; `.draw` = the first n `fill_solid` calls
+//!     of `draw()` on a target that returns an error from call n + 1 on, as `x,y,w,h,colour;...`;
+//!     <style> = fill stroke width align (shapes.rs)
 //!     <sec> = x y d start_mdeg sweep_mdeg tag lx ly rx ry: the plane sector (operation tag, left and right normal)
 //!     is what the real `PlaneSector::new` returns in THIS build (hook `verif_hooks::plane_sector`, read by the
 //!     generator, re-read and printed as `ps=` by `execute`); `bk bnx bny` = bevel kind and normal of the styled
@@ -26,7 +33,7 @@ use crate::shapes::{mdeg, parse_style};
 use embedded_graphics::{
     pixelcolor::Rgb565,
     prelude::*,
-    primitives::{Arc, ContainsPoint, CornerRadii, OffsetOutline, PrimitiveStyle, RoundedRectangle, Sector, Styled, Triangle},
+    primitives::{Arc, Circle, ContainsPoint, CornerRadii, Ellipse, OffsetOutline, Polyline, PrimitiveStyle, Rectangle, RoundedRectangle, Sector, Styled, Triangle},
     verif_hooks,
 };
 
@@ -276,7 +283,7 @@ pub fn generate(tier: Tier, rng: &mut Rng, emit: &mut dyn FnMut(String)) {
                 v[i] = v[i % 2];
             }
         }
-        v.iter().map(|x| x.to_string()).collect::<Vec<_>>().join(" ")
+        v.iter().map(|x| (*x).clamp(0, u32::MAX as i64).to_string()).collect::<Vec<_>>().join(" ")
     };
     let rr_fixed = [
         "0 0 0 0 0 0 0 0 0 0 0 0",
@@ -520,6 +527,99 @@ pub fn generate(tier: Tier, rng: &mut Rng, emit: &mut dyn FnMut(String)) {
         let (x, y, d, a, w, k2) = circle3(rng, i);
         emit(format!("scale.chk.arc.styled {} {} {}", sec(x, y, d, a, w), st, if width > 128 { 0 } else { k2 }));
     }
+
+    // ---- scanline-based styled shapes --------------------------------------------------------
+    let sty = |rng: &mut Rng, far: bool| -> String {
+        let (f, s) = *rng.pick(&[("7", "9"), ("-", "9"), ("7", "-"), ("7", "9"), ("-", "-")]);
+        let w = if far && rng.chance(1, 2) {
+            *rng.pick(&[129i64, 1024, 32767, 32768, 65535, 65536, (1 << 31) - 1, 1 << 31, u32::MAX as i64])
+        } else if rng.chance(3, 4) {
+            *rng.pick(&super::WIDTHS)
+        } else {
+            rng.range(0, 128)
+        };
+        format!("{} {} {} {}", f, s, w, rng.below(3))
+    };
+    // sizes beyond the display scale that end within the first rows
+    const SX: [i64; 12] = [8192, 16384, 32767, 32768, 46341, 65535, 65536, 1 << 30, (1 << 31) - 1, 1 << 31, u32::MAX as i64 - 1, u32::MAX as i64];
+    for i in 0..n {
+        let far = i % 4 == 3;
+        let (mut x, mut y) = (coord(rng), coord(rng));
+        let small = i % 4 < 2;
+        let (mut w, mut h) = if small { (rng.range(0, 40), rng.range(0, 40)) } else { (biased(rng), biased(rng)) };
+        if far {
+            match rng.below(4) {
+                0 => x = *rng.pick(&XI),
+                1 => y = *rng.pick(&XI),
+                2 => w = *rng.pick(&SX),
+                _ => h = *rng.pick(&SX),
+            }
+        }
+        let st = sty(rng, far);
+        let k = if small { 5000 } else if far { *rng.pick(&[0i64, 1, 5, 40]) } else { *rng.pick(&[0i64, 1, 5, 40, 300]) };
+        let kind = if rng.chance(1, 2) { "styled" } else { "draw" };
+        match i % 3 {
+            0 => emit(format!("scale.chk.circle.{} {} {} {} {} {}", kind, x, y, w, st, k)),
+            1 => emit(format!("scale.chk.ellipse.{} {} {} {} {} {} {}", kind, x, y, w, h, st, k)),
+            _ => {
+                let rd = radii(rng, w, h);
+                emit(format!("scale.chk.rrect.{} {} {} {} {} {} {} {}", kind, x, y, w, h, rd, st, k));
+            }
+        }
+    }
+    for f in [
+        "0 0 9 7 9 3 1 5000",
+        "0 0 9 7 9 128 2 5000",
+        "0 0 9 - 9 1 0 5000",
+        "0 0 0 7 9 5 1 50",
+        "-1024 -1024 1024 7 9 128 2 40",
+        "1024 1024 1024 7 9 128 1 40",
+        "0 0 32768 7 - 0 1 3",
+        "0 0 32767 7 - 0 1 3",
+        "0 0 65536 7 9 1 1 3",
+        "0 0 9 7 9 32768 2 3",
+        "0 0 9 7 9 4294967295 0 3",
+        "0 0 9 7 9 4294967295 1 3",
+        "0 0 9 7 9 4294967295 2 3",
+        "2147483647 0 3 7 9 1 1 9",
+        "1073741823 0 3 7 9 1 1 9",
+        "1073741820 0 3 7 9 1 1 9",
+        "-1073741824 0 3 7 9 1 1 9",
+        "-1073741825 0 3 7 9 1 1 9",
+    ] {
+        emit(format!("scale.chk.circle.styled {}", f));
+        emit(format!("scale.chk.circle.draw {}", f));
+        let v: Vec<&str> = f.split(' ').collect();
+        emit(format!("scale.chk.ellipse.styled {} {} {} {} {}", v[0], v[1], v[2], v[2], v[3..].join(" ")));
+        emit(format!("scale.chk.ellipse.draw {} {} {} 5 {}", v[0], v[1], v[2], v[3..].join(" ")));
+        emit(format!("scale.chk.rrect.draw {} {} {} {} 3 3 3 3 3 3 3 3 {}", v[0], v[1], v[2], v[2], v[3..].join(" ")));
+        emit(format!("scale.chk.rrect.styled {} {} {} 7 4294967295 1 0 0 5 5 2 9 {}", v[0], v[1], v[2], v[3..].join(" ")));
+    }
+
+    // ---- a thick polyline of three vertices: draw row by row -----------------------------------
+    const PC: [i64; 8] = [-40000, -32768, -30000, -16384, 16384, 30000, 32767, 40000];
+    for f in ["0 0 10 0 10 10 3 200", "0 0 10 10 0 1 4 200", "0 0 10 0 20 0 2 200", "0 0 0 0 0 0 5 50", "0 0 10 0 0 0 5 50", "-1024 -1024 1024 -1024 0 1024 2 40", "-1024 -1024 1024 1024 -1024 1024 128 40", "-1024 0 1024 1 -1024 2 128 40", "-257 65 0 -256 255 65 3 40", "0 0 5 5 10 0 128 300", "-40000 0 40000 1 0 9 3 5", "0 0 32767 32767 5 5 5 5", "0 0 32768 32768 5 5 5 5"] {
+        emit(format!("scale.chk.poly.draw {}", f));
+    }
+    for i in 0..n / 2 {
+        let small = i % 2 == 0;
+        let c = |rng: &mut Rng| if small { rng.range(-30, 30) } else { coord(rng) };
+        let mut v = [c(rng), c(rng), c(rng), c(rng), c(rng), c(rng)];
+        if i % 8 == 7 {
+            let forced = rng.below(6) as usize;
+            for (j, a) in v.iter_mut().enumerate() {
+                if j == forced || rng.chance(1, 2) {
+                    *a = *rng.pick(&PC);
+                }
+            }
+        } else if rng.chance(1, 8) {
+            v[4] = v[0];
+            v[5] = v[1];
+        }
+        let w = if small { rng.range(2, 12) } else if rng.chance(1, 2) { *rng.pick(&[2i64, 3, 5, 64, 127, 128]) } else { rng.range(2, 128) };
+        let k = if small { 5000 } else { *rng.pick(&[0i64, 1, 5, 40]) };
+        emit(format!("scale.chk.poly.draw {} {} {}", join6(&v), w, k));
+    }
 }
 
 fn tri(t: &mut Toks) -> Triangle {
@@ -551,6 +651,44 @@ fn fmt_pixels<I: Iterator<Item = Pixel<Rgb565>>>(it: I) -> String {
     } else {
         v.join(";")
     }
+}
+/// Target whose native `fill_solid` records (rectangle, colour) and fails from call `limit + 1` on; `draw_iter`
+/// counts as one call without a rectangle (not used by the scanline-based shapes).
+struct Calls {
+    v: Vec<(Rectangle, Rgb565)>,
+    limit: usize,
+}
+#[derive(Debug)]
+struct Full;
+impl Dimensions for Calls {
+    fn bounding_box(&self) -> Rectangle {
+        Rectangle::new(Point::new(-4096, -4096), Size::new(8192, 8192))
+    }
+}
+impl DrawTarget for Calls {
+    type Color = Rgb565;
+    type Error = Full;
+    fn draw_iter<I: IntoIterator<Item = Pixel<Rgb565>>>(&mut self, _pixels: I) -> Result<(), Full> {
+        panic!("scale.chk: draw_iter on the call-recording target");
+    }
+    fn fill_solid(&mut self, area: &Rectangle, color: Rgb565) -> Result<(), Full> {
+        if self.v.len() >= self.limit {
+            return Err(Full);
+        }
+        self.v.push((*area, color));
+        Ok(())
+    }
+}
+fn fmt_calls(c: &Calls) -> String {
+    if c.v.is_empty() {
+        return "-".to_string();
+    }
+    c.v.iter().map(|(r, col)| format!("{},{},{},{},{}", r.top_left.x, r.top_left.y, r.size.width, r.size.height, col.num())).collect::<Vec<_>>().join(";")
+}
+fn draw_calls<D: Drawable<Color = Rgb565>>(d: &D, n: usize) -> String {
+    let mut t = Calls { v: Vec::new(), limit: n };
+    let _ = d.draw(&mut t);
+    fmt_calls(&t)
 }
 fn tri_ds(t: &Triangle) -> bool {
     t.vertices.iter().all(|p| lds(*p))
@@ -655,6 +793,50 @@ pub fn execute(kernel: &str, t: &mut Toks) -> Option<(String, bool)> {
                 guard(|| format!("{} px={}", ps, fmt_pixels(Styled::new(Arc::new(tl, d, mdeg(a), mdeg(w)), style).pixels().take(n)))),
                 lds(tl) && d <= 1024 && style.stroke_width <= 128,
             )
+        }
+        "circle.styled" | "circle.draw" => {
+            let (tl, d) = (t.point(), t.u32());
+            let style = parse_style(t);
+            let n = t.usize();
+            let s = Styled::new(Circle::new(tl, d), style);
+            let ds = lds(tl) && d <= 1024 && style.stroke_width <= 128;
+            if kernel == "circle.styled" {
+                (guard(|| fmt_pixels(s.pixels().take(n))), ds)
+            } else {
+                (guard(|| draw_calls(&s, n)), ds)
+            }
+        }
+        "ellipse.styled" | "ellipse.draw" => {
+            let (tl, sz) = (t.point(), t.size());
+            let style = parse_style(t);
+            let n = t.usize();
+            let s = Styled::new(Ellipse::new(tl, sz), style);
+            let ds = lds(tl) && sz.width <= 1024 && sz.height <= 1024 && style.stroke_width <= 128;
+            if kernel == "ellipse.styled" {
+                (guard(|| fmt_pixels(s.pixels().take(n))), ds)
+            } else {
+                (guard(|| draw_calls(&s, n)), ds)
+            }
+        }
+        "rrect.styled" | "rrect.draw" => {
+            let rr = rrect(t);
+            let style = parse_style(t);
+            let n = t.usize();
+            let s = Styled::new(rr, style);
+            let ds = lds(rr.rectangle.top_left) && rr.rectangle.size.width <= 1024 && rr.rectangle.size.height <= 1024 && style.stroke_width <= 128;
+            if kernel == "rrect.styled" {
+                (guard(|| fmt_pixels(s.pixels().take(n))), ds)
+            } else {
+                (guard(|| draw_calls(&s, n)), ds)
+            }
+        }
+        "poly.draw" => {
+            let pts = [t.point(), t.point(), t.point()];
+            let w = t.u32();
+            let n = t.usize();
+            assert!(w >= 2, "scale.chk.poly.draw: stroke width below 2");
+            let ds = pts.iter().all(|p| lds(*p)) && w <= 128;
+            (guard(|| draw_calls(&Polyline::new(&pts).into_styled(PrimitiveStyle::with_stroke(Rgb565::from_num(9), w)), n)), ds)
         }
         _ => return None,
     })
